@@ -114,6 +114,21 @@ fn run<G: Grp>(s: &mut Src, info: &mut Info, key: &mut Key, ctx: &Ctx) -> Result
     cmp::<G>(&lfid, &fid, "sub", "B-A", &b, &a)?;
     let lneg = -a.val;
     cmp::<G>(&lneg, &nega, "neg", "-A", &a, &a)?;
+    // every other publicly reachable operator form (inner-type forms of G1)
+    for (name, v) in G::extra_forms(a.val, b.val) {
+        let want = if name.starts_with("add:") {
+            &sum
+        } else if name.starts_with("sub:") {
+            &dif
+        } else {
+            &nega
+        };
+        cmp::<G>(&v, want, "inner-form", name, &a, &b)?;
+    }
+    for (name, v) in G::extra_forms(a.val, a.val) {
+        let want = if name.starts_with("add:") { rf::aff_add(&a.aff, &a.aff) } else if name.starts_with("sub:") { None } else { nega.clone() };
+        cmp::<G>(&v, &want, "inner-form", &format!("{} (B = A)", name), &a, &a)?;
+    }
     // A + A through the adder (same representative on both sides) and A + (-A)
     cmp::<G>(&(a.val + a.val), &rf::aff_add(&a.aff, &a.aff), "add", "A+A", &a, &a)?;
     cmp::<G>(&(a.val + lneg), &None, "add", "A+(-A)", &a, &a)?;
